@@ -15,7 +15,10 @@ const DIR_MODES: [u32; 6] = [0o755, 0o777, 0o1755, 0o1777, 0o1775, 0o1757];
 const OWNERS: [u32; 3] = [0, 1000, 1001];
 
 /// items 0..5 run with the sysctl at 1, items 5..10 with 0 (the parent switches the global value between the two phases)
-pub fn n_items(_tier: &str) -> usize { 10 }
+/// items 10..12: sysctl 1 again, but the caller finds itself with a `subset=pid` /proc and without the privilege to mount its own:
+/// the library cannot read the sysctl. Whatever it does then, it must not follow a link the kernel refuses (safety half only).
+pub fn n_items(_tier: &str) -> usize { 12 }
+pub fn sysctl_for(idx: usize) -> u32 { if idx < 5 || idx >= 10 { 1 } else { 0 } }
 
 pub fn read_sysctl() -> Option<u32> { std::fs::read_to_string(SYSCTL).ok().and_then(|s| s.trim().parse().ok()) }
 pub fn write_sysctl(v: u32) -> MResult<()> { std::fs::write(SYSCTL, format!("{}\n", v)).map_err(|e| Mach(format!("cannot write {}: {}", SYSCTL, e))) }
@@ -28,10 +31,11 @@ fn chown(p: &str, uid: u32) -> MResult<()> {
 
 pub fn run_item(_tier: &str, idx: usize, only: Option<&Value>) -> MResult<ItemResult> {
     let mut res = ItemResult::default();
-    let want_sysctl = if idx < 5 { 1 } else { 0 };
-    let (iname, uid, nocaps) = IDENTITIES[idx % 5];
+    let want_sysctl = sysctl_for(idx);
+    let unreadable = idx >= 10;
+    let (iname, uid, nocaps) = if unreadable { [("uid1000+subset=pid", 1000, false), ("root-nocaps+subset=pid", 0, true)][idx - 10] } else { IDENTITIES[idx % 5] };
     if read_sysctl() != Some(want_sysctl) { return mach(format!("fs.protected_symlinks is {:?}, this item needs {} (the parent sets it)", read_sysctl(), want_sysctl)); }
-    enter_jail()?;
+    if unreadable { enter_jail_opts(Some("subset=pid"))?; } else { enter_jail()?; }
     let root_out = out(ROOT_IN);
     // fresh workers: the library caches the sysctl per process
     let setup = |deny: Vec<String>| Setup { jail: JAIL.into(), deny, uid, gid: uid, drop_caps: nocaps, ..Default::default() };
@@ -93,7 +97,12 @@ pub fn run_item(_tier: &str, idx: usize, only: Option<&Value>) -> MResult<ItemRe
                     res.outcome(format!("sysctl{}:{}:{}:K={}", want_sysctl, iname, pos, cls(&ok_)));
                     let desc = format!("sysctl={} caller={} dir(mode {:o}, owner {}) link owner {} [{}] {}", want_sysctl, iname, mode, downer, lowner, pos, op.brief());
                     let replay = json!({"engine": "c15", "item": idx, "mode_index": mi, "dir_owner": downer, "link_owner": lowner, "op": op});
-                    if cls(&ok_) != cls(&oe) {
+                    if unreadable {
+                        // the emulated resolver cannot know the sysctl here: any error is acceptable, following a refused link is not
+                        res.outcome(format!("unreadable:{}:{}:K={}:E={}", iname, pos, cls(&ok_), cls(&oe)));
+                        if oe.panic.is_some() { res.violate(format!("panic-sysctl-unreadable:{}", pos), format!("{}: emulated backend panicked: {:?}", desc, oe.panic), replay); }
+                        else if refused && oe.ok { res.violate(format!("emulated-allows-what-kernel-refuses:sysctl-unreadable:{}", pos), format!("{}: the kernel refuses (EACCES); the emulated backend, unable to read the sysctl, followed the link", desc), replay); }
+                    } else if cls(&ok_) != cls(&oe) {
                         let key = if refused { "emulated-allows-what-kernel-refuses" } else if cls(&oe) == "EACCES" { "emulated-refuses-what-kernel-allows" } else { "other-divergence" };
                         res.violate(format!("{}:{}", key, pos), format!("{}: kernel backend {} , emulated backend {} ({})", desc, cls(&ok_), cls(&oe), oe.msg.clone().unwrap_or_default()), replay);
                     } else if want_sysctl == 0 && refused {
@@ -110,7 +119,7 @@ pub fn run_item(_tier: &str, idx: usize, only: Option<&Value>) -> MResult<ItemRe
 pub fn report(_tier: &str) -> Report {
     Report {
         level: "exploration",
-        rule: format!("all {} combinations: sysctl {{1,0}} x caller {{root, root without any capability, uid 1000, uid 1001, root that switches to euid 1000 after its first symlink lookup}} x directory mode {:?} x directory owner {{0,1000,1001}} x link owner {{0,1000,1001}} x {{trailing link (resolve, open), intermediate link (resolve, open), link reached as the last component of another link's body, link not followed (resolve_nofollow, readlink)}}; the emulated backend must answer EACCES exactly where the kernel backend (same user, same tree) does; fresh worker processes per sysctl value; non-trivial = cases in a sticky world-writable directory or refused by the kernel", 2 * 5 * DIR_MODES.len() * 9 * 9, DIR_MODES.iter().map(|m| format!("{:o}", m)).collect::<Vec<_>>()),
+        rule: format!("all {} combinations: sysctl {{1,0}} x caller {{root, root without any capability, uid 1000, uid 1001, root that switches to euid 1000 after its first symlink lookup}} x directory mode {:?} x directory owner {{0,1000,1001}} x link owner {{0,1000,1001}} x {{trailing link (resolve, open), intermediate link (resolve, open), link reached as the last component of another link's body, link not followed (resolve_nofollow, readlink)}}; the emulated backend must answer EACCES exactly where the kernel backend (same user, same tree) does; fresh worker processes per sysctl value; non-trivial = cases in a sticky world-writable directory or refused by the kernel; plus 2 x {} cases with sysctl 1 for callers {{uid 1000, root without capabilities}} on a subset=pid /proc (sysctl unreadable): any error is accepted there, following a link the kernel refuses is not", 2 * 5 * DIR_MODES.len() * 9 * 9, DIR_MODES.iter().map(|m| format!("{:o}", m)).collect::<Vec<_>>(), DIR_MODES.len() * 9 * 9),
         assumptions: vec!["fs.protected_symlinks is writable (root, global sysctl); the check restores the original value on exit".into(), "the kernel backend (openat2) is the reference for the kernel's rule".into()],
         exhaustive: true,
         extra: json!({}),
